@@ -25,7 +25,7 @@ MUTANTS = [
 
 
 def run(pid, repo):
-    env = dict(os.environ, PYVC_REPO=repo)
+    env = dict(os.environ, PYVC_REPO=repo, PYVC_EVIDENCE=os.path.join(os.path.dirname(repo), "evidence"))
     p = subprocess.run([os.path.join(ROOT, "check"), pid, "--tier", "quick"], capture_output=True, text=True, env=env)
     v = [l for l in p.stdout.splitlines() if l.startswith("VIOLATION")]
     return p.returncode, v, p.stdout
